@@ -52,14 +52,13 @@ def skip_until_with_time_(
                 if open[0]:
                     observer.on_next(x)
 
-            subscription = source.subscribe(
-                on_next, observer.on_error, observer.on_completed, scheduler=scheduler_
-            )
-
             def action(scheduler: abc.SchedulerBase, state: Any):
                 open[0] = True
 
             disp = getattr(_scheduler, scheduler_method)(start_time, action)
+            subscription = source.subscribe(
+                on_next, observer.on_error, observer.on_completed, scheduler=scheduler_
+            )
             return CompositeDisposable(disp, subscription)
 
         return Observable(subscribe)
